@@ -173,3 +173,19 @@ Theorem C10_revocation_mapping_nonvacuous :
     faults p (handler r sv (FRevoke c t hint)) = (MRevokeToken, kd) :: rest /\ dcode kd = EAccessDenied.
 Proof. exact revocation_mapping_nonvacuous. Qed.
 Print Assumptions C10_revocation_mapping_nonvacuous.
+
+(* End session, every combination of request parameters (id_token_hint / client_id /
+   post_logout_redirect_uri / state, each present or absent), every client, both routers, every
+   storage: post_logout_redirect_uri and state do not change the storage calls or the reaction to a
+   failure, and a reached failure of ANY call - KeySet for the hint, GetClientByClientID whether the
+   client id came from the request or from the hint's azp, TerminateSession[FromRequest] - is answered
+   4xx / 5xx without credentials, never with a redirect (not to the default logout URI either). *)
+Theorem C10_end_session_variants :
+  forall r sv c hint cid plr st p,
+  let f := FEndSession c (EndReq hint cid plr st) in
+  handler r sv f = handler r sv (FEndSession c (EndReq hint cid false false)) /\
+  (hit p (handler r sv f) = true ->
+   let a := answer p (handler r sv f) in
+   (r_cls a = K4xx \/ r_cls a = K5xx) /\ r_creds a = []).
+Proof. exact end_session_variants. Qed.
+Print Assumptions C10_end_session_variants.
